@@ -64,6 +64,9 @@ def purity(ctx: Ctx) -> None:
         for b in bs:
             if b.kind == "assign" and match("deepcopy($t) or $c.blank()", b.value) is not None:
                 fresh[name] = b.value
+            elif b.kind == "assign" and match("$t or $c.blank()", b.value) is not None:
+                ctx.bad("R-PURE", cv, f"{name} is a deep copy of the caller's template or a fresh blank()", f"{name} = {src(b.value)}: the caller's template object itself is written to "
+                        "(and shared between results)", node=b.value)
     ctx.floor("fresh result objects in _convert", len(fresh), 2)
     for name, v in fresh.items():
         m = match("deepcopy($t) or $c.blank()", v)
@@ -79,8 +82,9 @@ def purity(ctx: Ctx) -> None:
         kind_c = "simfile" if "simfile" in ast.unparse(m["c"]) else "chart"
         ctx.expect("R-TABLE", cv, f"{name}: template and blank() are of the same kind", kind_t == kind_c, "", f"{src(v)}", node=v)
     # the chart object is created per chart (inside the chart loop)
-    loops = [lp for lp in for_loops(cv) if matches("$s.charts", lp.iter) and isinstance(lp.iter.value, ast.Name) and lp.iter.value.id == cv.param_names()[0]]
+    loops = [lp for lp in for_loops(cv) if any(matches("$s.charts", n) and isinstance(n.value, ast.Name) and n.value.id == cv.param_names()[0] for n in ast.walk(lp.iter))]
     lp = one(loops, "loop over simfile.charts in _convert")
+    ctx.expect("R-ORDER", cv, "the chart loop walks the source's whole chart list in order", matches("$s.charts", lp.iter), src(lp.iter), f"the loop iterates {src(lp.iter)}", node=lp)
     chart_fresh = [n for n, v in fresh.items() if "chart" in ast.unparse(match("deepcopy($t) or $c.blank()", v)["c"])]
     for n in chart_fresh:
         b = loc.b[n][0]
